@@ -126,11 +126,148 @@ def _um_writes(um: ast.ClassDef) -> List[tuple]:
     return out
 
 
+ACTIVE_WRITES: List[str] = []   # every assignment to an `is_active` attribute / class field in the package (filled by _package_inventory)
+
+
+# ------------------------------------------------------------------------------------------ kept connection objects (round 7)
+_HANDLE_ATOMS = {
+    "self.parent_terminal.operating_state != ServiceOperatingState.RUNNING": "(!running)",
+    "self.parent_terminal.operating_state == ServiceOperatingState.RUNNING": "running",
+    "self.parent_terminal.operating_state is not ServiceOperatingState.RUNNING": "(!running)",
+    "self.parent_terminal.operating_state is ServiceOperatingState.RUNNING": "running",
+    "self.is_active": "active",
+    "self.is_active is False": "(!active)",
+    "self.is_active == False": "(!active)",
+    "self.is_active is True": "active",
+    "self.parent_terminal.parent.user_session_manager.local_session is None": "loc.isNone",
+    "self.parent_terminal.parent.user_session_manager.local_session": "loc.isSome",
+    "self.parent_terminal.parent.user_session_manager.local_session is not None": "loc.isSome",
+    "self.parent_terminal.parent.user_session_manager.local_session.uuid != self.connection_uuid": "(loc != some cid)",
+    "self.parent_terminal.parent.user_session_manager.local_session.uuid == self.connection_uuid": "(loc == some cid)",
+    "self.connection_uuid != self.parent_terminal.parent.user_session_manager.local_session.uuid": "(loc != some cid)",
+    "self.connection_uuid == self.parent_terminal.parent.user_session_manager.local_session.uuid": "(loc == some cid)",
+    "self.parent_terminal.parent.user_session_manager.local_user_logged_in": "loc.isSome",
+}
+
+
+class _Inline(ast.NodeTransformer):
+    def __init__(self, env):
+        self.env = env
+
+    def visit_Name(self, node):
+        return self.env.get(node.id, node)
+
+
+def _tr_test(e: ast.AST, env) -> str:
+    """a Python test over the atoms above -> a Lean Bool expression; raises ValueError on anything else"""
+    if isinstance(e, ast.BoolOp):
+        op = " || " if isinstance(e.op, ast.Or) else " && "
+        return "(" + op.join(_tr_test(v, env) for v in e.values) + ")"
+    if isinstance(e, ast.UnaryOp) and isinstance(e.op, ast.Not):
+        return "(!" + _tr_test(e.operand, env) + ")"
+    txt = ast.unparse(_Inline(env).visit(ast.parse(ast.unparse(e), mode="eval").body))
+    if txt not in _HANDLE_ATOMS:
+        raise ValueError(f"test outside the vocabulary: {txt}")
+    return _HANDLE_ATOMS[txt]
+
+
+def _is_log(st: ast.stmt) -> bool:
+    return isinstance(st, ast.Expr) and ".sys_log." in ast.unparse(st)
+
+
+def _refuses(fn: ast.FunctionDef, refuse_values, final_prefix: str):
+    """The method as a chain of guard clauses `if <test>: [log]; return <refusal>` (local aliases inlined; `if … else` with the
+    final call in one arm and positively nested `if`s are normalised too) in front of `return <final_prefix>…`.
+    Returns (Lean Bool expression "the call is refused", the statements between the guards and the final return)."""
+    def walk(stmts, env):
+        # -> (Lean expression "refused" for this statement list, the non-guard statements met on the way); an `if` is followed
+        # into both arms, each continued with the statements after it (so guard clauses, `if … else`, positively nested `if`s and
+        # early returns all get their meaning); the list must end in the final call or in a refusal on every path
+        middle = []
+        for i, st in enumerate(stmts):
+            if _is_log(st):
+                continue
+            if isinstance(st, ast.Assign) and len(st.targets) == 1 and isinstance(st.targets[0], ast.Name):
+                val = _Inline(env).visit(ast.parse(ast.unparse(st.value), mode="eval").body)
+                if ast.unparse(val).startswith("self.parent_terminal.parent") and not isinstance(val, ast.Call):
+                    env = dict(env, **{st.targets[0].id: val})
+                else:
+                    middle.append(ast.unparse(st))
+                continue
+            if isinstance(st, ast.AnnAssign) and st.value is not None:
+                middle.append(ast.unparse(st))
+                continue
+            if isinstance(st, ast.Return):
+                v = ast.unparse(st.value) if st.value is not None else "None"
+                if v in refuse_values:
+                    return "true", middle
+                if v.startswith(final_prefix):
+                    return "false", middle + ["return " + v]
+                raise ValueError(f"unrecognised return: {v}")
+            if isinstance(st, ast.If):
+                t = _tr_test(st.test, env)
+                then_r, then_m = walk(list(st.body) + list(stmts[i + 1:]), env)
+                else_r, else_m = walk(list(st.orelse) + list(stmts[i + 1:]), env)
+                return f"(if {t} then {then_r} else {else_r})", middle + [x for x in then_m + else_m if x not in middle]
+            raise ValueError(f"unrecognised statement: {ast.unparse(st)}")
+        if "None" in refuse_values:     # fell off the end: Python returns None
+            return "true", middle
+        raise ValueError("falls off the end")
+    return walk(_body(fn), {})
+
+
+def _handle_gen() -> str:
+    tree = parse(TERM)
+    out = []
+    try:
+        lr, lm = _refuses(find_method(class_def(tree, "LocalTerminalConnection"), "execute"), ("None",), "self.parent_terminal.execute(")
+    except ValueError as e:
+        lr, lm = f"false /- not translated: {str(e)[:80].replace('-/', '')} -/", ["?"]
+    try:
+        rr, rm = _refuses(find_method(class_def(tree, "RemoteTerminalConnection"), "execute"), ("False", "None"), "self.parent_terminal.send(")
+    except ValueError as e:
+        rr, rm = f"false /- not translated: {str(e)[:80].replace('-/', '')} -/", ["?"]
+    # what the SSH packet of a remote execute carries (keyword -> value), and how it is sent
+    rfn = find_method(class_def(tree, "RemoteTerminalConnection"), "execute")
+    packet = []
+    for n in ast.walk(rfn):
+        if isinstance(n, ast.Call) and ast.unparse(n.func) == "SSHPacket":
+            packet = sorted((k.arg, ast.unparse(k.value)) for k in n.keywords)
+    consts = {ast.unparse(n.target): ast.unparse(n.value) for n in ast.walk(rfn) if isinstance(n, ast.AnnAssign) and n.value is not None}
+    packet = [(k, consts.get(v, v)) for k, v in packet]
+    disc = [ast.unparse(x) for x in _body(find_method(class_def(tree, "TerminalClientConnection"), "disconnect"))]
+    # where `_disconnect` deactivates: the statements from the pop to the first `if isinstance`
+    dfn = find_method(class_def(tree, "Terminal"), "_disconnect")
+    dstm = [ast.unparse(x) if not isinstance(x, ast.If) else "if " + ast.unparse(x.test) + ": " + "; ".join(ast.unparse(y) for y in x.body if not _is_log(y))
+            for x in _body(dfn) if not _is_log(x)]
+    dstm = [x for x in dstm if not x.startswith("if isinstance(")]
+    cls_default = [f"{c.name}.is_active = {ast.unparse(st.value)}" for c in ast.walk(tree) if isinstance(c, ast.ClassDef)
+                   for st in c.body if isinstance(st, ast.AnnAssign) and ast.unparse(st.target) == "is_active" and st.value is not None]
+    writes = list(ACTIVE_WRITES)
+    lm = sorted({x for x in lm if x.startswith(("return", "?"))})
+    rm = sorted({x for x in rm if x.startswith(("return", "?"))})
+    return f"""/-- `LocalTerminalConnection.execute` refuses (answers `None`) — translated from its guard clauses; `loc` = uuid of the node's
+current local session, `cid` = `self.connection_uuid` -/
+def localExecuteRefuses (running active : Bool) (loc : Option Nat) (cid : Nat) : Bool := {lr}
+def localExecuteRest : List String := {_lean_list(lm)}
+/-- `RemoteTerminalConnection.execute` refuses before sending -/
+def remoteExecuteRefuses (running active : Bool) : Bool := {rr}
+def remoteExecuteRest : List String := {_lean_list(rm)}
+def remoteExecutePacket : List (String × String) := {_lean_pairs(packet)}
+def connectionDisconnect : List String := {_lean_list(disc)}
+def terminalDisconnectHead : List String := {_lean_list(dstm)}
+/-- class-level defaults of `is_active` and every assignment to it anywhere in the package -/
+def isActiveDefaults : List String := {_lean_list(cls_default)}
+def isActiveWrites : List String := {_lean_list(sorted(writes))}
+"""
+
+
 def _package_inventory():
     """Over every module of the package: (a) writes to an account field / to a `users` mapping outside class UserManager,
     (b) calls of the account-editing methods outside class UserManager, (c) writes to `last_active_step`,
     (d) the user-manager / user-session-manager request names that agent actions build."""
     field_writes, editor_calls, clock_writes, action_reqs = [], [], [], []
+    del ACTIVE_WRITES[:]
     for f in sorted(SRC.rglob("*.py")):
         rel = str(f.relative_to(SRC))
         try:
@@ -143,6 +280,8 @@ def _package_inventory():
             for t in _targets(node):
                 if isinstance(t, ast.Attribute) and t.attr == "last_active_step":
                     clock_writes.append(f"{rel}:{_qual(stack)}: {ast.unparse(node)}")
+                if isinstance(t, ast.Attribute) and t.attr == "is_active":
+                    ACTIVE_WRITES.append(f"{rel}:{_qual(stack)}: {ast.unparse(node)}")
                 if in_um:
                     continue
                 if isinstance(t, ast.Attribute) and t.attr in _ACCOUNT_FIELDS and not isinstance(t.value, ast.Name) or \
@@ -615,5 +754,5 @@ def loginReturnValues : List String := {_lean_list(login_returns)}
 def routerSubjectToAcl : List String := {_lean_list(arp_exempt)}
 def routerOffDropsEveryFrame : Bool := {_b(router_off_drops)}
 def hostDropsFramesForClosedPorts : Bool := {_b(port_gate)}
-end Primaite.Gen.Session
+{_handle_gen()}end Primaite.Gen.Session
 """
